@@ -487,10 +487,12 @@ def gen_op(rng, name, c):
     elif name == 'groupBy':
         a['l'] = K()
         a['l2'] = S() if rng.random() < 0.4 else None
-        a['l3'] = rng.choice([ARG, ['index', ARG, 0], ['index', ARG, 1], ['index', ARG, -1], ['const', 0], ['pair', ARG, ARG],
+        a['l3'] = rng.choice([['pair', ['index', ARG, 0], ['sum', ['index', ARG, 1]]], ['pair', ['index', ARG, 0], ['len', ['index', ARG, 1]]],
+                              ['pair', ['index', ARG, 0], ['index', ARG, 1]], ['pair', ['index', ARG, 0], ['first', ['index', ARG, 1], []]],
+                              ARG, ['index', ARG, 0], ['index', ARG, 1], ['index', ARG, -1], ['const', 0], ['pair', ARG, ARG],
                               ['mul', ARG, 2], ['add', ARG, 1], ['not', ARG], ['eq', ARG, (1, 2)], ['len', ARG], ['sum', ARG],
                               ['first', ARG, []], ['where', ARG, ['gt', ARG, 0]], ['select', ARG, ['str', ARG]]]) \
-            if rng.random() < 0.35 else None
+            if rng.random() < 0.45 else None
     elif name == 'join':
         a['vs'] = tuple(elems(rng, c.profile, rng.randrange(0, 4)))
         a['f2'], a['g2'] = lam2_for(rng, 'pred', c.profile), lam2_for(rng, 'sel', c.profile)
@@ -713,8 +715,12 @@ def next_ops(kind):
     return None
 
 
-def pipeline(rng, fname, max_ops=4):
-    """a case exercising function `fname`: (kind, profile, data value, ops)"""
+def pipeline(rng, fname, max_ops=4, dict_bias=0.0, extras=True, kind_want=None):
+    """a case exercising function `fname`: (kind, profile, data value, ops, binder).
+    dict_bias: how often a function that takes a collection is tried on a dictionary instead (an engine with
+    yaql.iterableDicts iterates its keys); extras=False: no stages after `fname`; kind_want: the kind of the document"""
+    if fname.startswith('obs:'):
+        raise ValueError('use observe()')
     pre = []
     binder = None
     if fname in ROOT_OPS:
@@ -737,6 +743,10 @@ def pipeline(rng, fname, max_ops=4):
     first = pre[0] if pre else fname
     want = RECEIVERS.get(first, ['list'])
     kind = rng.choice(want) if rng.random() < 0.93 else None
+    if dict_bias and first in ITER_OPS and rng.random() < dict_bias:
+        kind = 'dict'
+    if kind_want:
+        kind = kind_want
     prof = None
     if fname in ('generate', 'generateManyTake'):
         kind, prof = 'scalar', 'ints'
@@ -765,7 +775,7 @@ def pipeline(rng, fname, max_ops=4):
         cur = kind if kind in ('list', 'set') else 'lazy'
     if fname == 'attr' and kind != 'dict':
         cur = 'lazy'
-    extra = rng.choice([0, 0, 1, 1, 2, 3])
+    extra = rng.choice([0, 0, 1, 1, 2, 3]) if extras else 0
     while len(ops) < max_ops and extra > 0:
         extra -= 1
         cand = next_ops(cur)
@@ -782,7 +792,7 @@ def pipeline(rng, fname, max_ops=4):
         cur = RESULT_KIND[n]
         if n in ('memorize', 'defaultIfEmpty'):
             cur = 'lazy'
-    if kind in ('iter', 'list', 'set'):
+    if kind in ('iter', 'list', 'set') and extras:
         r = rng.random()
         if fname in ROOT_OPS:
             binder = {'op': 'memorize'} if r < 0.75 else (
@@ -793,3 +803,106 @@ def pipeline(rng, fname, max_ops=4):
             and fname not in SOURCE_OPS and cur in ('lazy', 'seq', 'list', 'iter'):
         ops.append(gen_op(rng, rng.choice(['zipRoot', 'joinRoot', 'concatRoot']), c))
     return kind, prof, value, ops, binder
+
+
+# ------------------------------------------------------------------ programs that observe the operand of an update again
+
+# "persistent" updates: they return a new collection, their operand is the same afterwards
+LIST_UPDATERS = ['insert', 'insertMany', 'delete', 'replace', 'replaceMany', 'plusRight', 'plusLeft', 'timesInt', 'append']
+DICT_UPDATERS = ['dictSet', 'dictSetMany', 'dictSetInline', 'delete', 'deleteAll', 'mergeWith', 'plusRight']
+SET_UPDATERS = ['add', 'remove', 'union', 'intersect', 'difference', 'symmetricDifference', 'plusRight']
+UPDATERS = sorted(set(LIST_UPDATERS + DICT_UPDATERS + SET_UPDATERS))
+# what else may look at the operand (second position of letTwice / letChain)
+OBSERVERS = {'list': ['len', 'toList', 'reverse', 'first', 'sum', 'index', 'count'],
+             'dict': ['len', 'keys', 'values', 'items', 'get', 'containsKey', 'isDict'],
+             'set': ['len', 'toSet', 'count', 'isSet', 'contains']}
+OBS_SHAPES = ['letPair', 'letPair', 'letTwice', 'letChain', 'letChain', 'selPair', 'selPair', 'memPair']
+# pipelines whose RESULT is a list / dict / set the update can be applied to (the last op decides; [] = the document)
+LIST_PRODUCERS = [[], [], ['insert'], ['insert'], ['insert', 'insert'], ['splitAt'], ['toList'], ['listLit'], ['timesInt'],
+                  ['plusRight'], ['unpack'], ['enumerate', 'toList'], ['where', 'toList'], ['select', 'toList'],
+                  ['insertMany', 'toList'], ['delete', 'toList'], ['replace', 'toList'], ['reverse', 'toList'], ['slice', 'toList'],
+                  ['zip', 'toList'], ['skip', 'memorize'], ['append', 'toList'], ['orderBy', 'toList'], ['distinct', 'toList']]
+DICT_PRODUCERS = [[], [], ['dictSet'], ['dictSetMany'], ['deleteAll'], ['delete'], ['mergeWith'], ['plusRight'],
+                  ['deleteAll', 'deleteAll'], ['dictSet', 'delete'], ['mergeWith', 'deleteAll']]
+DICT_FROM_LIST = [['toDict'], ['toDict'], ['toDict', 'delete'], ['toDict', 'dictSet'], ['dict'], ['groupBy', 'dict']]
+SET_PRODUCERS = [[], [], ['add'], ['union'], ['remove'], ['difference']]
+SET_FROM_LIST = [['toSet'], ['toSet', 'add'], ['distinct', 'toSet']]
+# pipelines whose ELEMENTS are lists (mutable ones among them) / dicts
+ELEM_LIST_PRODUCERS = [[], [], ['enumerate'], ['enumerate'], ['splitAt'], ['slice'], ['zip'], ['groupBy'], ['where'], ['reverse'],
+                       ['toList'], ['select'], ['insert'], ['splitWhere'], ['sliceWhere'], ['zipLongest'], ['memorize']]
+ELEM_DICT_PRODUCERS = [[], [], ['where'], ['reverse'], ['toList'], ['take'], ['distinct'], ['insert'], ['memorize']]
+
+
+def updater_target(rng, uname):
+    kinds = [k for k, names in (('list', LIST_UPDATERS), ('dict', DICT_UPDATERS), ('set', SET_UPDATERS)) if uname in names]
+    return rng.choice(kinds)
+
+
+def build(rng, names, kind, prof=None):
+    """the pipeline `names` over a generated document of the given kind"""
+    kind, prof, value = data(rng, kind, prof)
+    c = Ctx(kind, prof, value)
+    return kind, prof, value, [gen_op(rng, n, c) for n in names], c
+
+
+def observe(rng, uname):
+    """an observing program for the updating function `uname`:
+    (kind, profile, data value, ops of the pipeline P, binder, obs = {shape, u[, u2]})"""
+    target = updater_target(rng, uname)
+    shape = rng.choice(OBS_SHAPES)
+    if target == 'set' and shape in ('selPair', 'memPair'):
+        shape = rng.choice(['letPair', 'letTwice', 'letChain'])        # (sets do not occur as elements)
+    if shape in ('selPair', 'memPair'):
+        if target == 'list':
+            prof = rng.choice(['nestdup', 'nestdup', 'nesttwins', 'pairs', 'nested', 'ints'])
+            names = rng.choice(ELEM_LIST_PRODUCERS)
+            if prof == 'ints' and not names:
+                names = ['enumerate']
+            kind = rng.choice(['list', 'list', 'iter', 'set']) if prof not in ('nested',) else rng.choice(['list', 'iter'])
+            if names and names[0] == 'items':
+                kind = 'dict'
+        else:
+            prof, names, kind = 'dicts', rng.choice(ELEM_DICT_PRODUCERS), rng.choice(['list', 'list', 'iter'])
+    else:
+        r = rng.random()
+        if target == 'list':
+            names, kind = rng.choice(LIST_PRODUCERS), rng.choice(['list', 'list', 'list', 'iter', 'set'])
+            if not names:
+                kind = 'list'
+        elif target == 'dict':
+            if r < 0.7:
+                names, kind = rng.choice(DICT_PRODUCERS), 'dict'
+            else:
+                names, kind = rng.choice(DICT_FROM_LIST), rng.choice(['list', 'list', 'iter'])
+        else:
+            if r < 0.7:
+                names, kind = rng.choice(SET_PRODUCERS), 'set'
+            else:
+                names, kind = rng.choice(SET_FROM_LIST), rng.choice(['list', 'iter'])
+        prof = None
+        if names and names[0] in ('toDict', 'groupBy'):
+            prof = rng.choice(['ints', 'strs', 'pairs', 'dicts', 'intsnull'])
+        if names and names[0] == 'dict':
+            prof = 'pairs'
+    kind, prof, value, ops, c = build(rng, list(names), kind, prof)
+    if ops and ops[0]['op'] == 'select' and shape in ('selPair', 'memPair'):
+        ops[0]['l'] = rng.choice([['pair', ARG, ARG], ['pair', ['len', ARG], ARG], ARG, ['pair', ARG, ['const', 0]]])
+    if rng.random() < 0.15 and len(ops) < 3 and kind in ('list', 'iter'):
+        ops.insert(0, gen_op(rng, rng.choice(['where', 'skip', 'take', 'reverse', 'append']), c))
+    # the arguments of the update fit the operand: an element (selPair / memPair) or the pipeline's result
+    if shape in ('selPair', 'memPair'):
+        inner = [x for x in c.elems if isinstance(x, (tuple, dict))]
+        ec = Ctx('dict' if target == 'dict' else 'list', 'ints', rng.choice(inner) if inner else ((1, 2) if target == 'list' else FD(a=1)))
+    else:
+        ec = Ctx(target if target != 'list' else 'list', prof, value if kind == target else
+                 (tuple(c.elems) if target == 'list' else value))
+        ec.kind = target
+    obs = {'shape': shape, 'u': gen_op(rng, uname, ec)}
+    if shape in ('letTwice', 'letChain'):
+        second = rng.choice([u for u in UPDATERS if u in {'list': LIST_UPDATERS, 'dict': DICT_UPDATERS, 'set': SET_UPDATERS}[target]]
+                            + OBSERVERS[target][:3])
+        if shape == 'letChain' and rng.random() < 0.6:
+            second = uname                                   # the same update applied to its own result
+        obs['u2'] = gen_op(rng, second, ec)
+    binder = {'op': 'memorize'} if kind in ('iter',) and rng.random() < 0.1 else None
+    return kind, prof, value, ops, binder, obs
